@@ -2,6 +2,8 @@ package rules
 
 import (
 	"fmt"
+	"go/constant"
+	"go/types"
 	"strings"
 
 	"golang.org/x/tools/go/ssa"
@@ -295,6 +297,20 @@ func c01(w *core.World, r *core.Report) {
 	}
 }
 
+// intentTypeConst: the value of a TransactionIntentType constant of package datastore/types (-1: not found).
+func intentTypeConst(w *core.World, name string) int64 {
+	p := w.Pkg("pkg/datastore/types")
+	if p == nil {
+		return -1
+	}
+	if c, ok := p.Pkg.Scope().Lookup(name).(*types.Const); ok {
+		if v, exact := constant.Int64Val(c.Val()); exact {
+			return v
+		}
+	}
+	return -1
+}
+
 // ruleInvolvedPaths: the set of paths for which alternatives are loaded is one accumulator over all intents
 // (shared by C01.PIPELINE-ORDER and C09.INVOLVED-PATHS).
 func ruleInvolvedPaths(w *core.World, r *core.Report, low *ssa.Function, rule string) {
@@ -302,46 +318,33 @@ func ruleInvolvedPaths(w *core.World, r *core.Report, low *ssa.Function, rule st
 	// the paths the alternatives are read for come from ONE PathSet made before the loop, joined with old and new content
 	if H != nil {
 		args := core.CallArgs(H)
+		// the sources of the path list: path sets (tree.NewPathSet joined with others, UpdateSlice.ToPathSet of the
+		// old / new content, Transaction.GetPathSet(Old / New)), followed through Join and GetPaths
 		var acc *ssa.Call
 		single := true
-		if len(args) >= 2 {
-			var visit func(v ssa.Value, d int)
-			visit = func(v ssa.Value, d int) {
-				for _, o := range core.Origins(v) {
-					c, ok := o.(*ssa.Call)
-					switch {
-					case core.IsNilConst(o):
-						// the nil a helper returns next to its error
-					case ok && core.CalleeIs(c, "tree.NewPathSet") && (acc == nil || acc == c):
-						acc = c
-					case ok && core.CalleeIs(c, "tree.PathSet.GetPaths") && d < 3:
-						visit(core.CallRecv(c), d+1)
-					default:
-						single = false
-					}
-				}
+		joinedOld, joinedNew := false, false
+		seen := map[ssa.Value]bool{}
+		var visit func(v ssa.Value, d int)
+		visit = func(v ssa.Value, d int) {
+			if d > 5 {
+				return
 			}
-			visit(args[1], 0)
-		}
-		r.Check(acc != nil && single, rule, core.Site(low, "involved paths accumulator"), w.InstrPos(H), "the involved-paths set the alternatives are read for must be the one accumulator created before the loop (not re-assigned per intent)")
-		if acc != nil {
-			joinedOld, joinedNew := false, false
-			for _, j := range core.CallsTo(low, "tree.PathSet.Join") {
-				if !core.HasOrigin(core.CallRecv(j), acc) {
+			for _, o := range core.Origins(v) {
+				if seen[o] {
 					continue
 				}
-				if !core.InstrBefore(j, H) && !core.CanFollow(j, H) {
+				seen[o] = true
+				c, ok := o.(*ssa.Call)
+				switch {
+				case core.IsNilConst(o):
+					// the nil a helper returns next to its error
 					continue
-				}
-				ja := core.CallArgs(j)
-				if len(ja) != 1 {
+				case ok && core.CalleeIs(c, "tree.PathSet.GetPaths"):
+					visit(core.CallRecv(c), d+1)
 					continue
-				}
-				for _, oc := range core.OriginCalls(ja[0]) {
-					if !core.CalleeIs(oc, "tree.UpdateSlice.ToPathSet") {
-						continue
-					}
-					for _, o2 := range core.OriginCalls(core.CallRecv(oc)) {
+				case ok && core.CalleeIs(c, "tree.NewPathSet"):
+				case ok && core.CalleeIs(c, "tree.UpdateSlice.ToPathSet"):
+					for _, o2 := range core.OriginCalls(core.CallRecv(c)) {
 						if core.CalleeIs(o2, "tree.RootEntry.LoadIntendedStoreOwnerData") {
 							joinedOld = true
 						}
@@ -349,8 +352,44 @@ func ruleInvolvedPaths(w *core.World, r *core.Report, low *ssa.Function, rule st
 							joinedNew = true
 						}
 					}
+				case ok && core.CalleeIs(c, "datastore/types.Transaction.GetPathSet"):
+					// the transaction keeps the old and the new content of all its intents
+					if ca := core.CallArgs(c); len(ca) == 1 {
+						if k, isC := ca[0].(*ssa.Const); isC && k.Value != nil {
+							switch k.Int64() {
+							case intentTypeConst(w, "TransactionIntentOld"):
+								joinedOld = true
+							case intentTypeConst(w, "TransactionIntentNew"):
+								joinedNew = true
+							}
+						}
+					}
+				default:
+					single = false
+					continue
+				}
+				if acc == nil {
+					acc = c
+				}
+				// what is joined into this set before the read
+				for _, j := range core.CallsTo(low, "tree.PathSet.Join") {
+					if !core.HasOrigin(core.CallRecv(j), c) {
+						continue
+					}
+					if !core.InstrBefore(j, H) && !core.CanFollow(j, H) {
+						continue
+					}
+					if ja := core.CallArgs(j); len(ja) == 1 {
+						visit(ja[0], d+1)
+					}
 				}
 			}
+		}
+		if len(args) >= 2 {
+			visit(args[1], 0)
+		}
+		r.Check(acc != nil && single, rule, core.Site(low, "involved paths accumulator"), w.InstrPos(H), "the involved paths the alternatives are read for must be path sets built from the content of the transaction's intents (tree.NewPathSet joined with them, or Transaction.GetPathSet)")
+		if acc != nil {
 			r.Check(joinedOld, rule, core.Site(low, "involved paths include old content"), w.InstrPos(H), "paths of the owner's previous content must be joined into the involved paths (a shrunk/deleted intent uncovers shadowed values there)")
 			r.Check(joinedNew, rule, core.Site(low, "involved paths include new content"), w.InstrPos(H), "paths of the new content must be joined into the involved paths")
 			// skip list: the transaction's own intents
